@@ -60,7 +60,25 @@ def replay(case):
     problems = []
     b = scn['binding']
     try:
-        if b in ('redirect', 'post'):
+        if b == 'redirect' and scn['typ'] == 'SAMLart':
+            from saml2_tophat.pack import http_redirect_message
+            info = http_redirect_message(ARTIFACT, dest, relay_state=relay or '', typ='SAMLart')
+            url = dict(info['headers'])['Location']
+            try:
+                pairs = urllib.parse.parse_qsl(urllib.parse.urlsplit(url).query, keep_blank_values=True, strict_parsing=True)
+            except ValueError as exc:
+                return {'problems': ['query not parseable by a strict reader: %s (%r)' % (exc, url)]}
+            d = dict(pairs)
+            want = sorted(['SAMLart'] + (['x'] if scn['locq'] else []) + (['RelayState'] if relay else []))
+            if sorted(k for k, _ in pairs) != want:
+                problems.append('parameters on the wire %s, expected %s (%r)' % (sorted(k for k, _ in pairs), want, url))
+            if d.get('SAMLart') != ARTIFACT:
+                problems.append('artifact read back as %r' % d.get('SAMLart'))
+            if scn['locq'] and d.get('x') != 'one':
+                problems.append('existing query parameter altered: x=%r' % d.get('x'))
+            if relay and d.get('RelayState') != relay:
+                problems.append('RelayState %r read back as %r' % (relay, d.get('RelayState')))
+        elif b in ('redirect', 'post'):
             msg = u'<m>payload ' + text + u' end</m>' + text
             info = ent.apply_binding(B[b], msg, dest, relay_state=relay or '', response=scn['typ'] == 'SAMLResponse',
                                      sign=scn['signed'], sigalg=SIGALG if scn['signed'] else None)
